@@ -17,6 +17,14 @@ def main():
         if rc != 0:
             print("setup: could not install", missing)
             return 1
+    # atheris (coverage-guided campaigns of the thorough tier) lives in .deps; optional: the checks work without it
+    sys.path.append(DEPS)
+    try:
+        import atheris  # noqa
+    except ImportError:
+        os.makedirs(DEPS, exist_ok=True)
+        subprocess.call([sys.executable, "-m", "pip", "install", "-q", "--no-index", "--find-links",
+                         "/opt/veriftools/wheels", "--target", DEPS, "atheris"])
     import torch, pypose  # noqa
     print("setup ok; pypose from", os.path.dirname(pypose.__file__))
     return 0
